@@ -190,15 +190,18 @@ def Ev.fault {p : Nat} : Ev p → Fault
   | .qrun f => f
   | _ => .none
 
-/-- settled points of a history.  Direct mode: a fault-free `u` right after a `u`.  Queue mode: a
-fault-free `q` right after a fault-free `u` that came right after a `u`/`q` (the reconcile retry and
-the queue worker have both run, nothing new arrived).  `prev2 prev1`: the two ops before. -/
-def specTrace {p : Nat} (queue : Bool) (files : Nat) (shardOf : Nat → Nat) :
-    Option (Ev p) → Option (Ev p) → Bool → List (Ev p) → List IObs → Option String
-  | _, _, _, [], _ => none
-  | _, _, _, _, [] => none
-  | p2, p1, lastRF, e :: es, os =>
-    if !e.isRun then specTrace queue files shardOf p1 (some e) lastRF es os else
+/-- settled points of a history ("a later reconciliation (the scheduled retry or the next event) brings
+the files on disk and the running HAProxy to the state of the cluster").  Direct mode: a fault-free `u` right
+after a `u` (the scheduled retry, empty batch), or the first fault-free `u` after a faulty one whatever
+arrived in between (the next event).  Queue mode: a fault-free `q` right after a fault-free `u` that came
+right after a `u`/`q` (the reconcile retry and the queue worker have both run, nothing new arrived).
+`prev2 prev1`: the two ops before; `lastFaulty`: the most recent run had a fault injected. -/
+def specTraceF {p : Nat} (queue : Bool) (files : Nat) (shardOf : Nat → Nat) :
+    Option (Ev p) → Option (Ev p) → Bool → Bool → List (Ev p) → List IObs → Option String
+  | _, _, _, _, [], _ => none
+  | _, _, _, _, _, [] => none
+  | p2, p1, lastRF, lastFaulty, e :: es, os =>
+    if !e.isRun then specTraceF queue files shardOf p1 (some e) lastRF lastFaulty es os else
     match os with
     | [] => none
     | o :: os' =>
@@ -209,11 +212,15 @@ def specTrace {p : Nat} (queue : Bool) (files : Nat) (shardOf : Nat → Nat) :
           (match e with | .qrun _ => true | _ => false) && clean &&
           (match p1 with | some (.upd .none) => true | _ => false) &&
           (match p2 with | some x => x.isRun | none => false)
-        else (match e with | .upd _ => true | _ => false) && clean && prevRun
+        else (match e with | .upd _ => true | _ => false) && clean && (prevRun || lastFaulty)
       let lastRF' := if clean then lastRF else e.fault.isReload
       match (if settled then settledClause files shardOf lastRF o else none) with
       | some c => some c
-      | none => specTrace queue files shardOf p1 (some e) lastRF' es os'
+      | none => specTraceF queue files shardOf p1 (some e) lastRF' (!clean) es os'
+
+def specTrace {p : Nat} (queue : Bool) (files : Nat) (shardOf : Nat → Nat)
+    (p2 p1 : Option (Ev p)) (lastRF : Bool) (es : List (Ev p)) (os : List IObs) : Option String :=
+  specTraceF queue files shardOf p2 p1 lastRF false es os
 
 /-- generator discipline the model relies on (besides C05's): while a host map is referenced a host
 exists (an emptied map file is not rewritten by the real code, C05 counts referenced files only) -/
